@@ -50,7 +50,7 @@ type selInfo struct {
 }
 
 func (m ModelSpec) resolves(n NameRef) bool {
-	if n.L >= lF0 && n.L <= lF3 && m.perm(n.L-lF0).Ign {
+	if n.L >= lF0 && n.L <= lF3 && m.modelPerm(n.L-lF0).Ign {
 		return false // gorm knows no column for an ignored field
 	}
 	return true
@@ -292,7 +292,82 @@ func predict(c Case) *prediction {
 			pr.mayErr = "Select(\"*\") with a struct value writes the struct's (zero) primary key into several rows"
 		}
 	}
+	c.shapeAdjust(pr)
+	if c.Model.Shape != shapeFlat && len(pr.newRows) > 0 && !anyDataColumn(pr.newRows[0]) {
+		switch c.Fin {
+		case fCreateMaps:
+			pr.fewerOK = "possibly no column of the maps survives: one INSERT .. DEFAULT VALUES"
+		case fUpsertAllMap:
+			pr.mayErr = orStr(pr.mayErr, "possibly no column of the map survives: INSERT .. DEFAULT VALUES ON CONFLICT is not valid SQL")
+		}
+	}
 	return pr
+}
+
+// nameAmbiguous: shapePrefixShadow has two fields with the Go name of the
+// shadowed field (Fi -> column fi, Aud.Fi -> column aud_fi); which column a
+// field-name spelled Select/Omit entry or map key denotes is not documented.
+func (c Case) nameAmbiguous() bool {
+	sh := c.Model.shadow()
+	if sh < 0 {
+		return false
+	}
+	for _, n := range append(append([]NameRef{}, c.Sel.Sel...), c.Sel.Omit...) {
+		if n.L == lF0+sh && n.Spell == 0 {
+			return true
+		}
+	}
+	return !finIsStruct(c.Fin) && c.KeySpell == 0 && c.Vals[sh] != vAbsent
+}
+
+// touchableRows: existing rows the program may legitimately write
+func (c Case) touchableRows() map[int]bool {
+	tr := map[int]bool{}
+	for _, rk := range c.targetRows() {
+		tr[rk] = true
+	}
+	if !finIsUpdate(c.Fin) && c.Fin != fSaveExisting {
+		tr[1] = true // upsert conflict row
+	}
+	return tr
+}
+
+// shapeAdjust relaxes the positive rules where a model shape makes them
+// ambiguous; the hard core (a column whose effective field denies the write,
+// rows outside the target) stays.
+func (c Case) shapeAdjust(pr *prediction) {
+	relax := func(exp []cellExp, l int, why string) {
+		if exp[l].kind == xKeep && exp[l].hard {
+			return
+		}
+		exp[l] = free(why)
+	}
+	each := func(f func(exp []cellExp, target bool)) {
+		tr := c.touchableRows()
+		for rk, exp := range pr.rows {
+			f(exp, tr[rk])
+		}
+		for _, exp := range pr.newRows {
+			f(exp, true)
+		}
+	}
+	switch c.Model.Shape {
+	case shapePrefixShadow:
+		if c.nameAmbiguous() {
+			sh := c.Model.shadow()
+			each(func(exp []cellExp, target bool) {
+				if target {
+					relax(exp, lF0+sh, "field-name spelling is ambiguous between Fi and Aud.Fi")
+				}
+			})
+		}
+	case shapePatch:
+		each(func(exp []cellExp, target bool) {
+			if target {
+				relax(exp, lUT, "time tracking for a value of a foreign struct type without the update-time field: undocumented")
+			}
+		})
+	}
 }
 
 func anyDataColumn(exp []cellExp) bool {
@@ -515,6 +590,11 @@ func (c Case) compare(pr *prediction, before, after []row, err error) (fs []find
 		}
 		seen[r[0].(int64)] = true
 	}
+	freePhys := map[int]bool{} // physical columns not asserted on target / new rows
+	if sh := m.shadow(); sh >= 0 {
+		freePhys[physIndex(fmt.Sprintf("aud_f%d", sh))] = true
+	}
+	touchable := c.touchableRows()
 	usedPhys := map[int]bool{0: true}
 	for l := 0; l < nLogical; l++ {
 		usedPhys[m.phys(l)] = true
@@ -591,6 +671,9 @@ func (c Case) compare(pr *prediction, before, after []row, err error) (fs []find
 		}
 		// columns the model does not map must never change
 		for pi := range r {
+			if freePhys[pi] && touchable[int(rk)] {
+				continue
+			}
 			if !usedPhys[pi] && cellStr(r[pi]) != cellStr(o[pi]) {
 				add(true, "forbidden cell written", "row rk=%d column %s is not mapped by the model but changed: %s -> %s", rk, physCols[pi], cellStr(o[pi]), cellStr(r[pi]))
 			}
@@ -656,7 +739,7 @@ func (c Case) compare(pr *prediction, before, after []row, err error) (fs []find
 			}
 		}
 		for pi := range r {
-			if !usedPhys[pi] && r[pi] != nil {
+			if !usedPhys[pi] && !freePhys[pi] && r[pi] != nil {
 				add(true, "forbidden cell written", "new row #%d column %s is not mapped by the model but was written: %s", i, physCols[pi], cellStr(r[pi]))
 			}
 		}
